@@ -104,21 +104,26 @@ func (tm *TransferManager) handle() {
 				transferI, _ := tm.inTransfers.LoadOrStore(msg.TransferId, NewIncomingTransfer(msg.TransferId))
 				transfer := transferI.(*IncomingTransfer)
 
-				if dam, err := transfer.NextSegment(msg); err != nil {
+				dam, err := transfer.NextSegment(msg)
+				if err != nil {
 					tm.chanErrors <- err
 					return
-				} else {
-					tm.msgOut <- dam
 				}
 
-				if transfer.IsFinished() {
-					if b, err := transfer.ToBundle(); err != nil {
-						tm.chanErrors <- err
-						return
-					} else {
-						tm.chanBundles <- b
-					}
-					tm.inTransfers.Delete(msg.TransferId)
+				if !transfer.IsFinished() {
+					tm.msgOut <- dam
+					break
+				}
+
+				// The final segment's acknowledgement tells the sender that its bundle was taken. Thus, it is only sent
+				// for an acceptable bundle; otherwise, e.g., for a bundle whose lifetime ended in transit, this single
+				// transfer is refused.
+				tm.inTransfers.Delete(msg.TransferId)
+				if b, err := transfer.ToBundle(); err != nil {
+					tm.msgOut <- msgs.NewTransferRefusalMessage(msgs.RefusalNotAcceptable, msg.TransferId)
+				} else {
+					tm.msgOut <- dam
+					tm.chanBundles <- b
 				}
 
 			// Everything else
